@@ -45,6 +45,9 @@ namespace CDNS {
      * blocks aren't checked against CdnsExporter's Block parameters. This is up to the user!!!)
      */
     class CdnsExporter {
+#ifdef CDNS_VERIF
+        friend struct ::cdns_verif::Access;
+#endif
         public:
         /**
          * @brief Construct a new CdnsExporter object to output C-DNS data
@@ -297,6 +300,9 @@ namespace CDNS {
      * CdnsBlockRead returned by this call is then empty.
      */
     class CdnsReader {
+#ifdef CDNS_VERIF
+        friend struct ::cdns_verif::Access;
+#endif
         public:
         /**
          * @brief Construct a new CdnsReader object to read uncompressed C-DNS data.
